@@ -411,7 +411,7 @@ func ext۰reflect۰Value۰Elem(fr *frame, args []value) value {
 		if x != nil {
 			v = *x
 		}
-		return makeReflectValue(rV2T(args[0]).t.Underlying().(*types.Pointer).Elem(), v)
+		return makeReflectValueAddr(rV2T(args[0]).t.Underlying().(*types.Pointer).Elem(), v, x)
 	default:
 		panic(fmt.Sprintf("reflect.(Value).Elem(%T)", x))
 	}
@@ -421,6 +421,12 @@ func ext۰reflect۰Value۰Field(fr *frame, args []value) value {
 	// Signature: func (v reflect.Value, i int) reflect.Value
 	v := args[0]
 	i := args[1].(int)
+	vs := v.(structure)
+	if len(vs) >= 3 && vs[2] != nil {
+		// addressable struct: fields are addressable through the live structure
+		st := (*vs[2].(*value)).(structure)
+		return makeReflectValueAddr(rV2T(v).t.Underlying().(*types.Struct).Field(i).Type(), st[i], &st[i])
+	}
 	return makeReflectValue(rV2T(v).t.Underlying().(*types.Struct).Field(i).Type(), rV2V(v).(structure)[i])
 }
 
@@ -490,8 +496,17 @@ func ext۰reflect۰Value۰IsValid(fr *frame, args []value) value {
 }
 
 func ext۰reflect۰Value۰Set(fr *frame, args []value) value {
-	// TODO(adonovan): implement.
+	dst := args[0].(structure)
+	if len(dst) < 3 || dst[2] == nil {
+		panic(targetPanic{"reflect: reflect.Value.Set using unaddressable value"})
+	}
+	addr := dst[2].(*value)
+	store(rV2T(args[0]).t, addr, rV2V(args[1]))
 	return nil
+}
+
+func makeReflectValueAddr(t types.Type, v value, addr *value) value {
+	return structure{rtype{t}, v, addr}
 }
 
 func ext۰reflect۰valueInterface(fr *frame, args []value) value {
